@@ -7,7 +7,7 @@ import struct
 import subprocess
 import tempfile
 
-from mc import core, impl, clidrv
+from mc import subchunk, core, impl, clidrv
 from mc.core import ChunkResult
 from mc.ref import hexdump as rhex
 
@@ -79,6 +79,8 @@ def plan(tier, seed):
     maxn = 3 if tier == 'quick' else 4
     ch = [{'k': 'layouts', 'ilog': i, 'maxn': maxn, 'tier': tier} for i in range(len(ILOGS))]
     ch.append({'k': 'cli'})
+    # the same under python -O (assertions stripped, __debug__ false)
+    ch += [dict(c, optimize=True) for c in [{'k': 'layouts', 'ilog': 0, 'maxn': 3, 'tier': 'quick'}, {'k': 'cli'}]]
     return ch
 
 
@@ -246,6 +248,9 @@ def _do(res, case, step=499):
 
 
 def run_chunk(chunk):
+    routed = subchunk.route(__name__, chunk)
+    if routed is not None:
+        return routed
     res = ChunkResult()
     impl.ensure(False)
     if chunk['k'] == 'cli':
